@@ -1638,3 +1638,731 @@ theorem tableClean_of_b {t : Nat} {log : List LEntry} (h : tableCleanB t log = t
   | mark sc _ _ _ _ => simpa using this
 
 end PtLazy
+
+namespace PtLazy
+variable {ts : List Nat}
+
+/-! ## an initialised private table keeps serving the public values, whatever happens elsewhere -/
+
+/-- the guard name of the group's loader init, if it has one -/
+def loaderGuard (g : GroupCfg) : Option Nat :=
+  match g.effsOf g.loader with
+  | some (.guard n :: _) => some n
+  | _ => none
+
+/-- has the group's loader init run on table t?  (its guard is in `t.properties`; for an init
+    without a guard: all its per-instance writes have run on t) -/
+def inited (g : GroupCfg) (c : GS) (t : Nat) : Bool :=
+  match loaderGuard g with
+  | some n => c.props.contains (t, n)
+  | none => (g.writesOf g.loader).all fun mk => c.effs.contains (t, mk.1, mk.2)
+
+/-- in every control state of R in which the loader init has run on a private table, that table
+    serves, for every atom profile and attribute, what a fresh interpreter serves publicly -/
+def privateSame2 (g : GroupCfg) (R : List GS) : Bool :=
+  R.all fun c => privTables.all fun t => !inited g c t ||
+    ((chainsOf g).all fun ch => g.attrs.all fun p =>
+      decide ((readVal g c t ch p noUser).strip = (readVal g g.initGS 0 ch p noUser).strip))
+
+theorem privateSame2_at {g : GroupCfg} {R : List GS} (h : privateSame2 g R = true) {c : GS} (hc : c ∈ R)
+    {t : Nat} (ht : t ∈ privTables) (hin : inited g c t = true) {chain : List Node} (hch : ChainOK chain)
+    {p : Nat} (hp : p ∈ g.attrs) :
+    (readVal g c t chain p noUser).strip = (readVal g g.initGS 0 chain p noUser).strip := by
+  unfold privateSame2 at h
+  simp only [List.all_eq_true, Bool.or_eq_true, Bool.not_eq_true', decide_eq_true_eq] at h
+  rcases h c hc t ht with hno | hyes
+  · rw [hin] at hno; cases hno
+  · have := hyes _ (norm_mem_chainsOf g hch) p hp
+    rw [readVal_norm, readVal_norm] at this
+    exact this
+
+/-- **initialised = public**: in any reachable state, a private table on which the attribute's
+    group has been initialised and that carries no user values serves what a fresh interpreter
+    serves on the public table -/
+theorem private_inited_canon {cfg : Config} (hsafe : SafeCfg ts cfg = true)
+    (hpriv : ∀ g ∈ cfg.groups, privateSame2 g (reach ts g) = true)
+    {s : State} (hinv : GInv ts cfg s) {t : Nat} (ht : t ∈ privTables) (hclean : TableClean t s.log)
+    (chain : List Node) (hch : ChainOK chain) (p : Nat)
+    (hin : ∀ gi g c, cfg.groupOf p = some gi → cfg.groups[gi]? = some g → s.gs[gi]? = some c →
+      inited g c t = true) :
+    (step cfg s (.read t chain p)).2 = canon cfg (.read 0 chain p) := by
+  unfold canon
+  simp only [step]
+  cases hgi : cfg.groupOf p with
+  | none => rfl
+  | some gi =>
+    obtain ⟨g, hg, hp⟩ := groupOf_some hgi
+    have hs := safeCfg_at hsafe hg
+    have hlt : gi < s.gs.length := by
+      rw [hinv.len]; exact (List.getElem?_eq_some_iff.mp hg).1
+    have hc : s.gs[gi]? = some s.gs[gi] := List.getElem?_eq_getElem hlt
+    have hcR := hinv.inR gi g _ hg hc
+    have hinit := ginv_init hsafe
+    have hlt0 : gi < cfg.init.gs.length := by
+      rw [hinit.len]; exact (List.getElem?_eq_some_iff.mp hg).1
+    have hc0 : cfg.init.gs[gi]? = some cfg.init.gs[gi] := List.getElem?_eq_getElem hlt0
+    have hc0R := hinit.inR gi g _ hg hc0
+    have hc0eq : cfg.init.gs[gi] = g.initGS := by
+      have : cfg.init.gs[gi]? = some g.initGS := by simp [Config.init, List.getElem?_map, hg]
+      rw [hc0] at this; exact Option.some.inj this
+    simp only [hg]
+    rw [orcOf_clean hclean, orcOf_public hinit.log]
+    obtain ⟨ho, hl⟩ := stepG_some hg hc noUser (.read t chain p)
+    obtain ⟨ho0, hl0⟩ := stepG_some hg hc0 noUser (.read 0 chain p)
+    rw [ho, ho0]
+    rw [gstep_read_out hs.1 hs.2.2.1 hcR, gstep_read_out hs.1 hs.2.2.1 hc0R]
+    apply serve_clean
+    · rw [hl]; exact fun e he => hclean e (applyTrace_subset g _ _ e he)
+    · rw [hl]; exact hinv.log.subset (applyTrace_subset g _ _)
+    · rw [hl0]; exact hinit.log.subset (applyTrace_subset g _ _)
+    · rw [hc0eq]
+      exact privateSame2_at (hpriv g (List.mem_of_getElem? hg)) hcR ht (hin gi g _ hgi hg hc) hch hp
+
+/-- `SafeIso` plus the state-based form of "an initialised private table serves the public values" -/
+def SafeIso2 (ts : List Nat) (cfg : Config) : Bool :=
+  SafeIso ts cfg && cfg.groups.all fun g => privateSame2 g (reach ts g)
+
+theorem safeIso2_at {cfg : Config} (h : SafeIso2 ts cfg = true) :
+    SafeIso ts cfg = true ∧ ∀ g ∈ cfg.groups, privateSame2 g (reach ts g) = true := by
+  unfold SafeIso2 at h
+  simp only [Bool.and_eq_true, List.all_eq_true] at h
+  exact h
+
+end PtLazy
+
+namespace PtLazy
+variable {ts : List Nat}
+
+/-! ## forcing a load is invisible on every table; user values enter only through the oracle -/
+
+theorem findStop_congr_orc (g : GroupCfg) (s : GS) (t p : Nat) :
+    ∀ (chain : List Node) (pos : Nat) (orc orc' : Orc),
+      (∀ i, pos ≤ i → i < pos + chain.length → orc i = orc' i) →
+      findStop g s t p orc chain pos = findStop g s t p orc' chain pos := by
+  intro chain
+  induction chain with
+  | nil => intro pos orc orc' _; rfl
+  | cons n rest ih =>
+    intro pos orc orc' h
+    unfold findStop
+    have h0 : orc pos = orc' pos := h pos (Nat.le_refl _) (by simp)
+    have hrest := ih (pos + 1) orc orc' (fun i h1 h2 => h i (by omega) (by simp only [List.length_cons]; omega))
+    rw [h0, hrest]
+
+theorem getSpec_congr_orc (g : GroupCfg) (s s1 : GS) (t : Nat) (chain : List Node) (p : Nat)
+    (orc orc' : Orc) (h : ∀ i, i < chain.length → orc i = orc' i) :
+    getSpec g s s1 t chain 0 p orc = getSpec g s s1 t chain 0 p orc' := by
+  unfold getSpec
+  rw [findStop_congr_orc g s t p chain 0 orc orc' (fun i _ hi => h i (by omega))]
+  cases hfs : findStop g s t p orc' chain 0 with
+  | val v => rfl
+  | fail => rfl
+  | pendingAt j =>
+    simp only
+    have hlen : ∀ i, j ≤ i → i < j + (List.drop (j - 0) chain).length → orc i = orc' i := by
+      intro i h1 h2
+      apply h
+      simp only [Nat.sub_zero, List.length_drop] at h2
+      omega
+    rw [findStop_congr_orc g s1 t p (List.drop (j - 0) chain) j orc orc' hlen]
+    cases findStop g s1 t p orc' (List.drop (j - 0) chain) j with
+    | val v => rfl
+    | pendingAt _ => rfl
+    | fail =>
+      simp only
+      cases hd : List.drop (j - 0) chain with
+      | nil => rfl
+      | cons n rest =>
+        simp only
+        have hlen' : ∀ i, j + 1 ≤ i → i < j + 1 + rest.length → orc i = orc' i := by
+          intro i h1 h2
+          apply hlen i (by omega)
+          rw [hd]; simp only [List.length_cons]; omega
+        rw [findStop_congr_orc g s1 t p rest (j + 1) orc orc' hlen']
+
+/-- user-value patterns on the (at most three) objects of a chain -/
+def orcPat (b0 b1 b2 : Bool) : Orc := fun i => if i = 0 then b0 else if i = 1 then b1 else if i = 2 then b2 else false
+
+def orcPats : List Orc :=
+  [true, false].flatMap fun b0 => [true, false].flatMap fun b1 => [true, false].map fun b2 => orcPat b0 b1 b2
+
+theorem orcPat_mem (b0 b1 b2 : Bool) : orcPat b0 b1 b2 ∈ orcPats := by
+  unfold orcPats
+  cases b0 <;> cases b1 <;> cases b2 <;> simp
+
+theorem chainOK_length {chain : List Node} (h : ChainOK chain) : chain.length ≤ 3 := by
+  have : (chain.map (·.cls)).length ≤ 3 := by
+    rcases h with h | h | h | h <;> rw [h] <;> simp
+  simpa using this
+
+theorem readVal_orcPat (g : GroupCfg) (c : GS) (t : Nat) {chain : List Node} (hch : ChainOK chain)
+    (p : Nat) (orc : Orc) :
+    readVal g c t chain p orc = readVal g c t chain p (orcPat (orc 0) (orc 1) (orc 2)) := by
+  unfold readVal
+  rw [getSpec_congr_orc g c _ t chain p orc (orcPat (orc 0) (orc 1) (orc 2))]
+  intro i hi
+  have := chainOK_length hch
+  unfold orcPat
+  match i, hi with
+  | 0, _ => rfl
+  | 1, _ => rfl
+  | 2, _ => rfl
+  | (k + 3), hi => omega
+
+/-- for every control state of R with something pending: on every table, for every atom profile,
+    user-value pattern and attribute, a read serves the same before and after the forced load -/
+def forceSame (ts : List Nat) (g : GroupCfg) (R : List GS) : Bool :=
+  R.all fun c => c.noPending ||
+    (ts.all fun t => (chainsOf g).all fun ch => orcPats.all fun orc => g.attrs.all fun p =>
+      decide ((readVal g c t ch p orc).strip =
+        (readVal g (forceAt g forceFuel c).1.norm t ch p orc).strip))
+
+theorem forceSame_at {g : GroupCfg} {R : List GS} (h : forceSame ts g R = true) {c : GS} (hc : c ∈ R)
+    (hp : c.noPending = false) {t : Nat} (ht : t ∈ ts) {chain : List Node} (hch : ChainOK chain)
+    {p : Nat} (hpa : p ∈ g.attrs) (orc : Orc) :
+    (readVal g c t chain p orc).strip = (readVal g (forceAt g forceFuel c).1.norm t chain p orc).strip := by
+  unfold forceSame at h
+  simp only [List.all_eq_true, Bool.or_eq_true, decide_eq_true_eq] at h
+  rcases h c hc with hno | hyes
+  · rw [hp] at hno; cases hno
+  · have := hyes t ht _ (norm_mem_chainsOf g hch) _ (orcPat_mem (orc 0) (orc 1) (orc 2)) p hpa
+    rw [readVal_norm, readVal_norm] at this
+    have e1 := readVal_orcPat g c t hch p orc
+    have e2 := readVal_orcPat g (forceAt g forceFuel c).1.norm t hch p orc
+    rw [e1, e2]
+    exact this
+
+end PtLazy
+
+namespace PtLazy
+variable {ts : List Nat}
+
+/-! ## an assignment on one table changes nothing that another table serves -/
+
+/-- the table a log entry belongs to -/
+def LEntry.owner : LEntry → Option Nat
+  | .user t _ _ _ _ _ => some t
+  | .mark sc _ _ _ _ => sc
+
+/-- the entries of the log that belong to table t -/
+def logOf (t : Nat) (log : List LEntry) : List LEntry := log.filter fun e => e.owner = some t
+
+theorem userVal_logOf (log : List LEntry) (t : Nat) (node : Node) (p : Nat) :
+    userVal log t node p = userVal (logOf t log) t node p := by
+  unfold userVal logOf
+  induction log with
+  | nil => rfl
+  | cons e rest ih =>
+    simp only [List.filter_cons]
+    cases e with
+    | user t' a c r p' v =>
+      by_cases ht : t' = t
+      · subst ht
+        simp only [LEntry.owner, decide_true, ↓reduceIte, List.findSome?_cons]
+        split
+        · rfl
+        · exact ih
+      · have : (decide ((LEntry.user t' a c r p' v).owner = some t)) = false := by
+          simp [LEntry.owner, ht]
+        simp only [this, Bool.false_eq_true, ↓reduceIte, List.findSome?_cons]
+        have : ¬ (t' = t ∧ a = node.atom ∧ c = node.cls ∧ p' = p) := fun h => ht h.1
+        simp only [this, ↓reduceIte]
+        exact ih
+    | mark sc a p' s n =>
+      simp only [List.findSome?_cons]
+      split
+      · simp only [List.findSome?_cons]; exact ih
+      · exact ih
+
+theorem marksOf_logOf (log : List LEntry) (t a p : Nat) (src : Nat × Nat) :
+    marksOf log (some t) a p src = marksOf (logOf t log) (some t) a p src := by
+  unfold marksOf logOf
+  congr 1
+  induction log with
+  | nil => rfl
+  | cons e rest ih =>
+    simp only [List.filter_cons, List.filterMap_cons]
+    cases e with
+    | user t' a' c r p' v =>
+      simp only [markOf]
+      split
+      · simp only [List.filterMap_cons, markOf]; exact ih
+      · exact ih
+    | mark sc a' p' s n =>
+      by_cases hsc : sc = some t
+      · subst hsc
+        have : (decide ((LEntry.mark (some t) a' p' s n).owner = some t)) = true := by
+          simp [LEntry.owner]
+        simp only [this, ↓reduceIte, List.filterMap_cons]
+        rw [ih]
+      · have : (decide ((LEntry.mark sc a' p' s n).owner = some t)) = false := by
+          simp [LEntry.owner, hsc]
+        simp only [this, Bool.false_eq_true, ↓reduceIte, markOf]
+        have : ¬ (sc = some t ∧ a' = a ∧ p' = p ∧ s = src) := fun h => hsc h.1
+        simp only [this, ↓reduceIte]
+        exact ih
+
+theorem orcOf_logOf (log : List LEntry) (t : Nat) (chain : List Node) (p : Nat) :
+    orcOf log t chain p = orcOf (logOf t log) t chain p := by
+  funext pos
+  unfold orcOf
+  cases chain[pos]? with
+  | none => rfl
+  | some node => simp only; rw [userVal_logOf]
+
+/-- what is served on table t depends on the log only through the entries of t (given that the
+    log has no global marks) -/
+theorem serve_congr {g : GroupCfg} {log log' : List LEntry} (h : LogOK log) (h' : LogOK log')
+    {t : Nat} (hlog : logOf t log = logOf t log') (chain : List Node) (p : Nat) {r r' : Res Val}
+    (hr : r.strip = r'.strip) :
+    serve g log t chain p r.toOut = serve g log' t chain p r'.toOut := by
+  have hu : ∀ node, userVal log t node p = userVal log' t node p := by
+    intro node; rw [userVal_logOf log, userVal_logOf log', hlog]
+  have hm : ∀ a src, marksOf log (some t) a p src = marksOf log' (some t) a p src := by
+    intro a src; rw [marksOf_logOf log, marksOf_logOf log', hlog]
+  have hn : ∀ {l : List LEntry}, LogOK l → ∀ a src, marksOf l none a p src = [] := by
+    intro l hl a src
+    unfold marksOf
+    have : List.filterMap (markOf none a p src) l = [] := by
+      apply List.filterMap_eq_nil_iff.mpr
+      intro e he
+      have := hl e he
+      cases e with
+      | user _ _ _ _ _ _ => rfl
+      | mark sc' a' p' s n =>
+        simp only [markOf] at this ⊢
+        obtain ⟨t0, hsct, _⟩ := this
+        split
+        · next hc => rw [hsct] at hc; exact absurd hc.1 (by simp)
+        · rfl
+    rw [this, List.mergeSort_nil]
+  cases r with
+  | ok v =>
+    cases r' with
+    | ok v' =>
+      simp only [Res.strip, Res.ok.injEq] at hr
+      cases v with
+      | data i k m =>
+        cases v' <;> simp only [Val.strip] at hr <;> try cases hr
+        simp only [Res.toOut, serve]
+        cases g.sharedEff i k
+        · simp only [Bool.false_eq_true, ↓reduceIte]; rw [hm]
+        · simp only [↓reduceIte]; rw [hn h, hn h']
+      | user pos =>
+        cases v' <;> simp only [Val.strip] at hr <;> try cases hr
+        simp only [Res.toOut, serve]
+        cases chain[pos]? with
+        | none => rfl
+        | some node => simp only; rw [hu]
+      | dflt i v t0 m =>
+        cases v' <;> simp only [Val.strip] at hr <;> try cases hr
+        simp only [Res.toOut, serve]
+        rw [hn h, hn h']
+      | computed i k pos =>
+        cases v' <;> simp only [Val.strip] at hr <;> try cases hr
+        simp only [Res.toOut, serve]
+        rw [hm]
+    | _ => simp [Res.strip] at hr
+  | attrError => cases r' <;> simp [Res.strip] at hr <;> rfl
+  | otherError => cases r' <;> simp [Res.strip] at hr <;> rfl
+  | outOfFuel => cases r' <;> simp [Res.strip] at hr <;> rfl
+
+end PtLazy
+
+namespace PtLazy
+variable {ts : List Nat}
+
+def TraceItem.table : TraceItem → Nat
+  | .wrote t _ _ => t
+  | .delAttr t _ => t
+
+/-- the forced load only writes instance attributes of the public table -/
+def forceTraceOK (g : GroupCfg) (R : List GS) : Bool :=
+  R.all fun c => c.noPending || (forceAt g forceFuel c).1.trace.all fun it => it.table == 0
+
+theorem applyTrace_public (g : GroupCfg) {log : List LEntry} (h : LogOK log) :
+    ∀ (tr : List TraceItem), (∀ it ∈ tr, it.table = 0) → applyTrace g log tr = log := by
+  intro tr
+  induction tr with
+  | nil => intro _; rfl
+  | cons item older ih =>
+    intro hall
+    have hold := ih (fun it hit => hall it (List.mem_cons_of_mem _ hit))
+    have h0 := hall item (List.mem_cons_self ..)
+    unfold applyTrace
+    simp only [hold]
+    cases item with
+    | wrote t i k =>
+      simp only [TraceItem.table] at h0
+      subst h0
+      simp only
+      split
+      · apply List.filter_eq_self.mpr
+        intro e he
+        have := h e he
+        cases e with
+        | user t' _ c' rows p' _ =>
+          simp only at this ⊢
+          simp [this]
+        | mark sc _ p' src _ =>
+          simp only at this ⊢
+          obtain ⟨t0, rfl, ht0⟩ := this
+          simp [ht0]
+      · rfl
+    | delAttr t p =>
+      simp only [TraceItem.table] at h0
+      subst h0
+      simp only
+      apply List.filter_eq_self.mpr
+      intro e he
+      have := h e he
+      cases e with
+      | user t' _ _ _ p' _ =>
+        simp only at this ⊢
+        simp [this]
+      | mark sc _ p' _ _ =>
+        simp only at this ⊢
+        obtain ⟨t0, rfl, ht0⟩ := this
+        simp [ht0]
+
+theorem forceTrace_at {g : GroupCfg} {R : List GS} (h : forceTraceOK g R = true) {c : GS} (hc : c ∈ R)
+    (hp : c.noPending = false) : ∀ it ∈ (forceAt g forceFuel c).1.trace, it.table = 0 := by
+  unfold forceTraceOK at h
+  simp only [List.all_eq_true, Bool.or_eq_true, beq_iff_eq] at h
+  rcases h c hc with hno | hyes
+  · rw [hp] at hno; cases hno
+  · exact hyes
+
+/-- the trace of a read from a state of R mentions the public table only -/
+theorem read_trace_public {g : GroupCfg} (hget : g.getter = [.clear, .load, .get])
+    (hcl : closed ts g (reach ts g) = true) (htr : forceTraceOK g (reach ts g) = true)
+    {c : GS} (hc : c ∈ reach ts g) (t : Nat) (chain : List Node) (p : Nat) (orc : Orc) :
+    ∀ it ∈ (gstep g c orc (.read t chain p)).1.trace, it.table = 0 := by
+  have htrace0 := (closed_at hcl hc).1
+  simp only [gstep]
+  cases hp : c.noPending with
+  | true =>
+    rw [fuel0_eq, getAttr_noPending g hp]; simp only; rw [htrace0]; intro it hit; cases hit
+  | false =>
+    obtain ⟨s1, hf, hnp, _⟩ := closed_force hcl hc hp
+    have hft := forceTrace_at htr hc hp
+    rw [hf] at hft
+    rw [fuel0_eq, getAttr_spec g hget 55 hf hnp]
+    unfold getSpec
+    split
+    · simp only; rw [htrace0]; intro it hit; cases hit
+    · simp only; rw [htrace0]; intro it hit; cases hit
+    · simp only
+      split
+      · exact hft
+      · exact hft
+      · split
+        · split <;> exact hft
+        · exact hft
+
+end PtLazy
+
+namespace PtLazy
+variable {ts : List Nat}
+
+/-- the conditions used for isolation between tables -/
+def SafeIso3 (ts : List Nat) (cfg : Config) : Bool :=
+  SafeIso2 ts cfg && cfg.groups.all fun g =>
+    forceSame ts g (reach ts g) && forceTraceOK g (reach ts g)
+
+theorem safeIso3_at {cfg : Config} (h : SafeIso3 ts cfg = true) :
+    SafeIso2 ts cfg = true ∧ (∀ g ∈ cfg.groups, forceSame ts g (reach ts g) = true) ∧
+    ∀ g ∈ cfg.groups, forceTraceOK g (reach ts g) = true := by
+  unfold SafeIso3 at h
+  simp only [Bool.and_eq_true, List.all_eq_true] at h
+  exact ⟨h.1, fun g hg => (h.2 g hg).1, fun g hg => (h.2 g hg).2⟩
+
+/-- two reachable states that differ, per group, at most by a forced load, and whose logs agree
+    on table t, serve the same on t -/
+theorem read_congr {cfg : Config} (hsafe : SafeCfg ts cfg = true)
+    (hforce : ∀ g ∈ cfg.groups, forceSame ts g (reach ts g) = true)
+    (htr : ∀ g ∈ cfg.groups, forceTraceOK g (reach ts g) = true)
+    {s s' : State} (hinv : GInv ts cfg s) (hinv' : GInv ts cfg s')
+    {t : Nat} (ht : t ∈ ts) (chain : List Node) (hch : ChainOK chain) (p : Nat)
+    (hgs : ∀ gj : Nat, s'.gs[gj]? = s.gs[gj]? ∨
+      ∃ (g : GroupCfg) (c : GS), cfg.groups[gj]? = some g ∧ s.gs[gj]? = some c ∧ c.noPending = false ∧
+        s'.gs[gj]? = some (forceAt g forceFuel c).1.norm)
+    (hlog : logOf t s'.log = logOf t s.log) :
+    (step cfg s' (.read t chain p)).2 = (step cfg s (.read t chain p)).2 := by
+  simp only [step]
+  cases hgi : cfg.groupOf p with
+  | none => rfl
+  | some gi =>
+    obtain ⟨g, hg, hp⟩ := groupOf_some hgi
+    have hgm := List.mem_of_getElem? hg
+    have hs := safeCfg_at hsafe hg
+    have hlt : gi < s.gs.length := by rw [hinv.len]; exact (List.getElem?_eq_some_iff.mp hg).1
+    have hc : s.gs[gi]? = some s.gs[gi] := List.getElem?_eq_getElem hlt
+    have hcR := hinv.inR gi g _ hg hc
+    have hlt' : gi < s'.gs.length := by rw [hinv'.len]; exact (List.getElem?_eq_some_iff.mp hg).1
+    have hc' : s'.gs[gi]? = some s'.gs[gi] := List.getElem?_eq_getElem hlt'
+    have hc'R := hinv'.inR gi g _ hg hc'
+    simp only [hg]
+    have horc : orcOf s'.log t chain p = orcOf s.log t chain p := by
+      rw [orcOf_logOf s'.log, orcOf_logOf s.log, hlog]
+    rw [horc]
+    obtain ⟨ho, hl⟩ := stepG_some hg hc (orcOf s.log t chain p) (.read t chain p)
+    obtain ⟨ho', hl'⟩ := stepG_some hg hc' (orcOf s.log t chain p) (.read t chain p)
+    rw [ho, ho', gstep_read_out hs.1 hs.2.2.1 hcR, gstep_read_out hs.1 hs.2.2.1 hc'R]
+    have hlogeq : (stepG cfg s gi (orcOf s.log t chain p) (.read t chain p)).1.log = s.log := by
+      rw [hl]
+      exact applyTrace_public g hinv.log _ (read_trace_public hs.1 hs.2.2.1 (htr g hgm) hcR t chain p _)
+    have hlogeq' : (stepG cfg s' gi (orcOf s.log t chain p) (.read t chain p)).1.log = s'.log := by
+      rw [hl']
+      exact applyTrace_public g hinv'.log _ (read_trace_public hs.1 hs.2.2.1 (htr g hgm) hc'R t chain p _)
+    rw [hlogeq, hlogeq']
+    apply serve_congr hinv'.log hinv.log hlog
+    rcases hgs gi with hsame | ⟨g', c, hg', hcs, hpend, hforced⟩
+    · have : s'.gs[gi] = s.gs[gi] := by
+        rw [hc, hc'] at hsame; exact Option.some.inj hsame
+      rw [this]
+    · rw [hg] at hg'; cases hg'
+      have e1 : s.gs[gi] = c := by rw [hc] at hcs; exact Option.some.inj hcs
+      have e2 : s'.gs[gi] = (forceAt g forceFuel c).1.norm := by
+        rw [hc'] at hforced; exact Option.some.inj hforced
+      rw [e1, e2]
+      rw [e1] at hcR
+      exact (forceSame_at (hforce g hgm) hcR hpend ht hch hp _).symm
+
+end PtLazy
+
+namespace PtLazy
+variable {ts : List Nat}
+
+theorem setAttr_state {g : GroupCfg} (hset : g.setter = [.clear, .load, .set])
+    (hcl : closed ts g (reach ts g) = true) {c : GS} (hc : c ∈ reach ts g)
+    (t : Nat) (chain : List Node) (p : Nat) (orc : Orc) :
+    (setAttr g fuel0 c t chain 0 p orc .user).1 = c ∨
+    (c.noPending = false ∧ (setAttr g fuel0 c t chain 0 p orc .user).1 = (forceAt g forceFuel c).1) := by
+  cases hp : c.noPending with
+  | true => left; rw [fuel0_eq, setAttr_noPending g hp]
+  | false =>
+    obtain ⟨s1, hf, hnp, _⟩ := closed_force hcl hc hp
+    rw [fuel0_eq, setAttr_spec g hset 55 hf hnp]
+    have hs1 : (forceAt g forceFuel c).1 = s1 := by rw [hf]
+    unfold setSpec
+    split
+    · left; rfl
+    · split
+      · split
+        · right; exact ⟨rfl, hs1.symm⟩
+        · right; exact ⟨rfl, hs1.symm⟩
+        · right; exact ⟨rfl, hs1.symm⟩
+      · left; rfl
+      · left; rfl
+
+theorem gstep_assign_state (g : GroupCfg) (c : GS) (orc : Orc) (t : Nat) (chain : List Node) (p : Nat) :
+    (gstep g c orc (.assign t chain p)).1 = (setAttr g fuel0 c t chain 0 p orc .user).1 := by
+  simp only [gstep]
+  cases setAttr g fuel0 c t chain 0 p orc .user with
+  | mk s1 r => cases r <;> rfl
+
+theorem logOf_cons_other {t t' : Nat} (h : t' ≠ t) (a : Nat) (c : Cls) (rows : List (Nat × Nat)) (p v : Nat)
+    (l : List LEntry) : logOf t' (.user t a c rows p v :: l) = logOf t' l := by
+  unfold logOf
+  simp only [List.filter_cons, LEntry.owner]
+  have : ¬ (some t = some t') := fun hh => h (Option.some.inj hh).symm
+  simp [this]
+
+theorem logOf_filter_user {t t' : Nat} (h : t' ≠ t) (f : LEntry → Bool)
+    (hf : ∀ e, f e = false → e.owner = some t) (l : List LEntry) :
+    logOf t' (l.filter f) = logOf t' l := by
+  unfold logOf
+  rw [List.filter_filter]
+  apply List.filter_congr
+  intro e _
+  cases hfe : f e with
+  | true => simp
+  | false =>
+    have := hf e hfe
+    have hne : ¬ (e.owner = some t') := by
+      rw [this]; exact fun hh => h (Option.some.inj hh).symm
+    simp [hne]
+
+/-- the state after an assignment, in terms of the group step -/
+theorem assign_result {cfg : Config} (s : State) (t : Nat) (node : Node) (rest : List Node) (p v gi : Nat)
+    (hgi : cfg.groupOf p = some gi) :
+    (step cfg s (.assign t (node :: rest) p v)).1.gs =
+      (stepG cfg s gi (orcOf s.log t (node :: rest) p) (.assign t (node :: rest) p)).1.gs ∧
+    ∀ t', t' ≠ t → logOf t' (step cfg s (.assign t (node :: rest) p v)).1.log =
+      logOf t' (stepG cfg s gi (orcOf s.log t (node :: rest) p) (.assign t (node :: rest) p)).1.log := by
+  simp only [step, hgi]
+  generalize stepG cfg s gi (orcOf s.log t (node :: rest) p) (.assign t (node :: rest) p) = st
+  obtain ⟨s1, o⟩ := st
+  cases o with
+  | done =>
+    refine ⟨rfl, fun t' hne => ?_⟩
+    simp only
+    rw [logOf_cons_other hne, logOf_filter_user hne]
+    intro e he
+    cases e with
+    | user t0 a c r p0 v0 =>
+      simp only [Bool.not_eq_eq_eq_not, Bool.not_false, Bool.and_eq_true, decide_eq_true_eq] at he
+      simp [LEntry.owner, he.1.1.1]
+    | mark _ _ _ _ _ => simp at he
+  | val _ => exact ⟨rfl, fun _ _ => rfl⟩
+  | attrError => exact ⟨rfl, fun _ _ => rfl⟩
+  | otherError => exact ⟨rfl, fun _ _ => rfl⟩
+  | bool _ => exact ⟨rfl, fun _ _ => rfl⟩
+  | outOfFuel => exact ⟨rfl, fun _ _ => rfl⟩
+
+/-- **isolation of assignments**: after `x.p = v` on an atom of table t, every other table – the
+    public one or another private one – serves exactly what it served before -/
+theorem assign_isolated {cfg : Config} (hsafe : SafeCfg ts cfg = true)
+    (hforce : ∀ g ∈ cfg.groups, forceSame ts g (reach ts g) = true)
+    (htr : ∀ g ∈ cfg.groups, forceTraceOK g (reach ts g) = true)
+    {s : State} (hinv : GInv ts cfg s) (t : Nat) (chain : List Node) (p v : Nat)
+    (hev : evOK ts cfg s (.assign t chain p v))
+    {t' : Nat} (ht' : t' ∈ ts) (hne : t' ≠ t) (chain' : List Node) (hch : ChainOK chain') (p' : Nat) :
+    (step cfg (step cfg s (.assign t chain p v)).1 (.read t' chain' p')).2
+      = (step cfg s (.read t' chain' p')).2 := by
+  have hinv1 := ginv_step hsafe hinv _ hev (fun h => by cases h)
+  cases hgi : cfg.groupOf p with
+  | none =>
+    have : (step cfg s (.assign t chain p v)).1 = s := by simp [step, hgi]
+    rw [this]
+  | some gi =>
+    cases chain with
+    | nil =>
+      have : (step cfg s (.assign t [] p v)).1 = s := by simp [step, hgi]
+      rw [this]
+    | cons node rest =>
+      obtain ⟨hgs1, hlog1⟩ := assign_result (cfg := cfg) s t node rest p v gi hgi
+      obtain ⟨g, hg, _⟩ := groupOf_some hgi
+      have hs := safeCfg_at hsafe hg
+      have hlt : gi < s.gs.length := by rw [hinv.len]; exact (List.getElem?_eq_some_iff.mp hg).1
+      have hc : s.gs[gi]? = some s.gs[gi] := List.getElem?_eq_getElem hlt
+      have hcR := hinv.inR gi g _ hg hc
+      have hst := setAttr_state hs.2.1 hs.2.2.1 hcR t (node :: rest) p (orcOf s.log t (node :: rest) p)
+      apply read_congr hsafe hforce htr hinv hinv1 ht' chain' hch p'
+      · intro gj
+        rw [hgs1, stepG_gs hg hc, gstep_assign_state]
+        by_cases hj : gi = gj
+        · subst hj
+          simp only [List.getElem?_set, hlt, ↓reduceIte]
+          rcases hst with hsame | ⟨hpend, hforced⟩
+          · left; rw [hsame, closed_norm hs.2.2.1 hcR, hc]
+          · right; exact ⟨g, _, hg, hc, hpend, by rw [hforced]⟩
+        · left; simp [List.getElem?_set, hj]
+      · rw [hlog1 t' hne, (stepG_some hg hc _ _).2, gstep_assign_state]
+        congr 1
+        apply applyTrace_public g hinv.log
+        rcases hst with hsame | ⟨hpend, hforced⟩
+        · rw [hsame, (closed_at hs.2.2.1 hcR).1]; intro it hit; cases hit
+        · rw [hforced]; exact forceTrace_at (htr g (List.mem_of_getElem? hg)) hcR hpend
+
+end PtLazy
+
+namespace PtLazy
+variable {ts : List Nat}
+
+theorem logOf_addMark_other {t t' : Nat} (h : t' ≠ t) (l : List LEntry) (a p : Nat) (src : Nat × Nat) (n : Nat) :
+    logOf t' (addMark l (.mark (some t) a p src n)) = logOf t' l := by
+  unfold addMark
+  split
+  · rfl
+  · unfold logOf
+    simp only [List.filter_cons, LEntry.owner]
+    have : ¬ (some t = some t') := fun hh => h (Option.some.inj hh).symm
+    simp [this]
+
+/-- the state after an admissible in-place mutation, in terms of the group step of its read -/
+theorem mutate_result {cfg : Config} (hsh : NoSharedCfg cfg) (s : State) (t : Nat) (chain : List Node)
+    (p n gi : Nat) (hgi : cfg.groupOf p = some gi)
+    (hnd : ∀ i v t' m, (stepG cfg s gi (orcOf s.log t chain p) (.read t chain p)).2 ≠ .val (.dflt i v t' m)) :
+    (step cfg s (.mutate t chain p n)).1.gs =
+      (stepG cfg s gi (orcOf s.log t chain p) (.read t chain p)).1.gs ∧
+    ∀ t', t' ≠ t → logOf t' (step cfg s (.mutate t chain p n)).1.log =
+      logOf t' (stepG cfg s gi (orcOf s.log t chain p) (.read t chain p)).1.log := by
+  simp only [step, hgi]
+  generalize stepG cfg s gi (orcOf s.log t chain p) (.read t chain p) = st at hnd
+  obtain ⟨s1, o⟩ := st
+  simp only at hnd ⊢
+  cases hg : cfg.groups[gi]? with
+  | none => exact ⟨by first | rfl | trivial, fun _ _ => rfl⟩
+  | some g =>
+    have hns := hsh g (List.mem_of_getElem? hg)
+    cases o with
+    | val v =>
+      cases v with
+      | data i k m =>
+        simp only [sharedEff_false hns, Bool.false_eq_true, ↓reduceIte]
+        exact ⟨by first | rfl | trivial, fun t' hne => logOf_addMark_other hne _ _ _ _ _⟩
+      | user pos => exact ⟨by first | rfl | trivial, fun _ _ => rfl⟩
+      | dflt i v t' m => exact absurd rfl (hnd i v t' m)
+      | computed i k pos => exact ⟨by first | rfl | trivial, fun t' hne => logOf_addMark_other hne _ _ _ _ _⟩
+    | attrError => exact ⟨by first | rfl | trivial, fun _ _ => rfl⟩
+    | otherError => exact ⟨by first | rfl | trivial, fun _ _ => rfl⟩
+    | bool _ => exact ⟨by first | rfl | trivial, fun _ _ => rfl⟩
+    | done => exact ⟨by first | rfl | trivial, fun _ _ => rfl⟩
+    | outOfFuel => exact ⟨by first | rfl | trivial, fun _ _ => rfl⟩
+
+theorem getAttr_state {g : GroupCfg} (hget : g.getter = [.clear, .load, .get])
+    (hcl : closed ts g (reach ts g) = true) {c : GS} (hc : c ∈ reach ts g)
+    (t : Nat) (chain : List Node) (p : Nat) (orc : Orc) :
+    (getAttr g fuel0 c t chain 0 p orc).1 = c ∨
+    (c.noPending = false ∧ (getAttr g fuel0 c t chain 0 p orc).1 = (forceAt g forceFuel c).1) := by
+  cases hp : c.noPending with
+  | true => left; rw [fuel0_eq, getAttr_noPending g hp]
+  | false =>
+    obtain ⟨s1, hf, hnp, _⟩ := closed_force hcl hc hp
+    rw [fuel0_eq, getAttr_spec g hget 55 hf hnp]
+    have hs1 : (forceAt g forceFuel c).1 = s1 := by rw [hf]
+    unfold getSpec
+    split
+    · left; rfl
+    · left; rfl
+    · simp only
+      split
+      · right; exact ⟨by first | rfl | trivial, hs1.symm⟩
+      · right; exact ⟨by first | rfl | trivial, hs1.symm⟩
+      · split
+        · split <;> (right; exact ⟨by first | rfl | trivial, hs1.symm⟩)
+        · right; exact ⟨by first | rfl | trivial, hs1.symm⟩
+
+/-- **isolation of in-place mutation**: after mutating what table t serves for an atom (not a
+    class-level default), every other table serves exactly what it served before -/
+theorem mutate_isolated {cfg : Config} (hsafe : SafeCfg ts cfg = true) (hsh : NoSharedCfg cfg)
+    (hforce : ∀ g ∈ cfg.groups, forceSame ts g (reach ts g) = true)
+    (htr : ∀ g ∈ cfg.groups, forceTraceOK g (reach ts g) = true)
+    {s : State} (hinv : GInv ts cfg s) (t : Nat) (chain : List Node) (p n : Nat)
+    (hev : evOK ts cfg s (.mutate t chain p n))
+    {t' : Nat} (ht' : t' ∈ ts) (hne : t' ≠ t) (chain' : List Node) (hch : ChainOK chain') (p' : Nat) :
+    (step cfg (step cfg s (.mutate t chain p n)).1 (.read t' chain' p')).2
+      = (step cfg s (.read t' chain' p')).2 := by
+  have hinv1 := ginv_step hsafe hinv _ hev (fun _ => hsh)
+  cases hgi : cfg.groupOf p with
+  | none =>
+    have : (step cfg s (.mutate t chain p n)).1 = s := by simp [step, hgi]
+    rw [this]
+  | some gi =>
+    obtain ⟨hgs1, hlog1⟩ := mutate_result hsh s t chain p n gi hgi (hev.2.2 gi hgi)
+    obtain ⟨g, hg, _⟩ := groupOf_some hgi
+    have hs := safeCfg_at hsafe hg
+    have hlt : gi < s.gs.length := by rw [hinv.len]; exact (List.getElem?_eq_some_iff.mp hg).1
+    have hc : s.gs[gi]? = some s.gs[gi] := List.getElem?_eq_getElem hlt
+    have hcR := hinv.inR gi g _ hg hc
+    have hst := getAttr_state hs.1 hs.2.2.1 hcR t chain p (orcOf s.log t chain p)
+    have hgstep : (gstep g s.gs[gi] (orcOf s.log t chain p) (.read t chain p)).1
+        = (getAttr g fuel0 s.gs[gi] t chain 0 p (orcOf s.log t chain p)).1 := by simp [gstep]
+    apply read_congr hsafe hforce htr hinv hinv1 ht' chain' hch p'
+    · intro gj
+      rw [hgs1, stepG_gs hg hc, hgstep]
+      by_cases hj : gi = gj
+      · subst hj
+        simp only [List.getElem?_set, hlt, ↓reduceIte]
+        rcases hst with hsame | ⟨hpend, hforced⟩
+        · left; rw [hsame, closed_norm hs.2.2.1 hcR, hc]
+        · right; exact ⟨g, _, hg, hc, hpend, by rw [hforced]⟩
+      · left; simp [List.getElem?_set, hj]
+    · rw [hlog1 t' hne, (stepG_some hg hc _ _).2]
+      congr 1
+      exact applyTrace_public g hinv.log _
+        (read_trace_public hs.1 hs.2.2.1 (htr g (List.mem_of_getElem? hg)) hcR t chain p _)
+
+end PtLazy
